@@ -25,8 +25,35 @@ class View(object):
     pass
 
 
+def flatten_request(state):
+    """native request 'state' dict -> {symbol name: concrete value} (the names Session uses)"""
+    import binascii
+    v = {}
+    for k in ('st', 'H', 'KA', 'allow_auto', 'crc', 'peering_status', 'tr_connected', 'tr_disconnecting',
+              'P_disconnected', 'fourbytesas'):
+        if k in state:
+            v[k] = state[k]
+    conf = state.get('conf', {})
+    for k in ('cfgH', 'cr_t', 'ih_t', 'do_t', 'cfgKA', 'local_as', 'remote_as', 'now'):
+        if k in conf:
+            v[k] = conf[k]
+    v['conf_rib'] = conf.get('rib', False)
+    for sh, t in state.get('timers', {}).items():
+        v[sh + '_status'], v[sh + '_active'], v[sh + '_deadline'] = t.get('status'), t.get('active'), t.get('deadline')
+    for k, x in state.get('sent', {}).items():
+        v['sent_' + k] = x
+    for k, x in state.get('recv', {}).items():
+        v['recv_' + k] = x
+    rb = state.get('rbuf')
+    if isinstance(rb, dict) and 'hex' in rb:
+        v['rbuf'] = binascii.a2b_hex(rb['hex'])
+    v['bgp_id'] = state.get('bgp_id', 0x0a000001)
+    return v
+
+
 class Session(object):
-    def __init__(self, it, with_protocol=True, transport_connected=None, concrete_caps=None, sfx=''):
+    def __init__(self, it, with_protocol=True, transport_connected=None, concrete_caps=None, sfx='', peer_id_fork=False,
+                 values=None):
         prog = it.prog
         M = prog.models
         p = it.p
@@ -36,7 +63,11 @@ class Session(object):
         peering_cls = prog.func('yabgp.core.factory.BGPPeering')
         timer_cls = prog.func('yabgp.core.timer.BGPTimer')
 
+        V = flatten_request(values) if values is not None else None
+
         def I(name, lo=None, hi=None):
+            if V is not None:
+                return V.get(name, 0)
             v = z3.Int(name + sfx)
             if lo is not None:
                 p.assume(v >= lo)
@@ -45,10 +76,17 @@ class Session(object):
             return SNum(v)
 
         def Bv(name):
+            if V is not None:
+                return bool(V.get(name, False))
             return SBool(z3.Bool(name + sfx))
 
+        def Rv(name):
+            if V is not None:
+                return float(V.get(name, 0.0))
+            return SNum(z3.Real(name + sfx))
+
         # ---- reactor clock
-        self.now = z3.Real('now' + sfx)
+        self.now = z3.Real('now' + sfx) if V is None else z3.RealVal(repr(float(V.get('now', 0.0))))
         p.assume(self.now >= 0)
         p.ghost['reactor_now'] = self.now
         p.ghost['now'] = self.now
@@ -57,6 +95,9 @@ class Session(object):
         conf = M.conf
         conf.f.clear()
         self.cfgH = I('cfgH', 0, 65535)
+        # A-config: the configured hold time is a legal RFC 4271 value (0 or at least 3 seconds)
+        if V is None:
+            p.assume(z3.Or(self.cfgH.t == 0, self.cfgH.t >= 3))
         self.cr_t = I('cr_t', 1, 65535)
         self.ih_t = I('ih_t', 0, 65535)
         self.do_t = I('do_t', 0, 65535)
@@ -87,7 +128,11 @@ class Session(object):
         self.bgp_id = Opaque('bgp_id')
         peering = Obj(peering_cls, tag='peering')
         self.peering = peering
-        self.peer_id0 = I('peering_peer_id', 0, 2 ** 32 - 1)
+        from . import strings as STR
+        if V is not None:
+            self.peer_id0 = values.get('peer_id')
+        else:
+            self.peer_id0 = None if (peer_id_fork and p.branch(z3.Bool('peering_peer_id_none' + sfx))) else STR.ip4(I('peering_peer_id', 0, 2 ** 32 - 1))
         peering.f.update({'my_asn': self.local_as, 'my_addr': '10.0.0.1', 'peer_addr': '10.0.0.2',
                           'peer_id': self.peer_id0, 'bgp_id': I('bgp_id', 0, 2 ** 32 - 1), 'peer_asn': self.remote_as,
                           'afi_safi': ['ipv4'], 'md5': None, 'status': Bv('peering_status'),
@@ -98,8 +143,9 @@ class Session(object):
         peering.f['fsm'] = fsm
         self.st = I('st', 1, 6)
         self.H = I('H', 0, 65535)
-        self.KA = SNum(z3.Real('KA' + sfx))
-        p.assume(self.KA.t >= 0)
+        self.KA = Rv('KA')
+        if V is None:
+            p.assume(self.KA.t >= 0)
         self.allow_auto = Bv('allow_auto')
         self.crc = I('crc', 0)
         fsm.f.update({'bgp_peering': peering, 'protocol': None, 'state': self.st, 'connect_retry_counter': self.crc,
@@ -112,11 +158,23 @@ class Session(object):
             s = TSHORT[tn]
             t = Obj(timer_cls, tag=s + '_timer')
             status, active = Bv(s + '_status'), Bv(s + '_active')
-            deadline = SNum(z3.Real(s + '_deadline' + sfx))
-            p.assume(z3.Implies(active.t, status.t))          # representation invariant of BGPTimer
-            p.assume(z3.Implies(active.t, deadline.t >= self.now))
+            deadline = Rv(s + '_deadline')
+            if V is None:
+                p.assume(z3.Implies(active.t, status.t))          # representation invariant of BGPTimer
+                p.assume(z3.Implies(active.t, deadline.t >= self.now))
             t.f.update({'name': tn, 'status': status, '_active': active, '_deadline': deadline,
                         'callable': BoundMethod(fsm_cls.lookup(TEVENT[tn]), fsm)})
+            if V is not None:
+                # concrete (witness) mode: the real BGPTimer code runs on the DelayedCall representation
+                del t.f['_active'], t.f['_deadline']
+                if active:
+                    t.f['delayed_call'] = Obj('DelayedCall', {'called': False, 'cancelled': False, 'time': deadline,
+                                                              'fn': t.f['callable'], 'args': ()})
+                elif status:
+                    t.f['delayed_call'] = Obj('DelayedCall', {'called': True, 'cancelled': False, 'time': deadline,
+                                                              'fn': t.f['callable'], 'args': ()})
+                else:
+                    t.f['delayed_call'] = None
             fsm.f[tn] = t
             self.timers[s] = t
         # ---- protocol (current connection), optional
@@ -127,11 +185,11 @@ class Session(object):
             conn = I('tr_connected', 0, 1) if transport_connected is None else transport_connected
             self.transport = Obj('Transport', {'connected': conn, 'disconnecting': Bv('tr_disconnecting')},
                                  tag='transport')
-            self.buf = SBytes.fresh('rbuf')
+            self.buf = SBytes.fresh('rbuf') if V is None else V.get('rbuf', b'')
             self.sent = {k: I('sent_' + k, 0) for k in STAT_KEYS}
             self.recv = {k: I('recv_' + k, 0) for k in STAT_KEYS}
             P.f.update({'fsm': fsm, 'factory': peering, 'bgp_peering': peering, 'transport': self.transport,
-                        'peer_id': I('P_peer_id', 0, 2 ** 32 - 1), 'disconnected': Bv('P_disconnected'),
+                        'peer_id': None, 'disconnected': Bv('P_disconnected'),
                         '_receive_buffer': self.buf, 'fourbytesas': Bv('fourbytesas'),
                         'add_path_ipv4_receive': Bv('ap4rx'), 'add_path_ipv4_send': Bv('ap4tx'),
                         'adj_rib_in': {'ipv4': {}}, 'adj_rib_out': {'ipv4': {}},
@@ -144,7 +202,7 @@ class Session(object):
             fsm.f['protocol'] = P
             peering.f['estab_protocol'] = P
         self.timers_pre = {sh: dict(t.f) for sh, t in self.timers.items()}
-        self.pre = self.snap()
+        self.pre = self.snap() if V is None else {}
 
     # ---- snapshots
     def snap(self):
